@@ -117,9 +117,13 @@ impl KeyValueStore {
         let imm = None;
         let imm_trigger = 0;
         let mem = Arc::new(MemTable::default());
+        // NOTE:  The log carries the number of its memtable, as it does after every rollover in
+        // _memtable_thread.  The flush records that number in the manifest ('L') and the verifier
+        // waits for trash/log.<L>; a log named before taking the tree's maximum timestamp into
+        // account was never found under that name.
+        seq_no = std::cmp::max(seq_no, tree.max_timestamp());
         let mem_path = LOG_FILE(&root, seq_no);
         let mem_log = Self::start_new_log(&mem_path, options.log.clone())?;
-        seq_no = std::cmp::max(seq_no, tree.max_timestamp());
         let mem_seq_no = seq_no;
         seq_no += 1;
         let state = Mutex::new(KeyValueStoreState {
